@@ -306,6 +306,10 @@ class WaitInitiatorCEA(State):
     def run(self) -> None:
         self.set_wait_initiator_cea_state(set_name=True)
 
+        if self.is_set_release_signal_from_peer():
+            self.event_initiator_peer_disc()
+            return
+
         if self.has_recv_queue_message():
             self.msg = self.get_message()
 
